@@ -22,6 +22,8 @@ def gen_dynamics(rng):
                            'complex_unit', 'complex_unstable', 'slow'])
         if calm:
             kind = rng.choice(['stable', 'stable', 'negative', 'complex_stable'])
+        elif rng.random() < 0.12:
+            kind = 'explosive'
         kind_tags.append(kind)
         target = rng.choice([5.0, 20.0, -5.0, -40.0, 0.0, -0.5, 100.0, -1000.0])
         if kind.startswith('complex'):
@@ -41,7 +43,7 @@ def gen_dynamics(rng):
         else:
             lam = {'stable': rng.choice([0.1, 0.5, 0.9]), 'unit': 1.0, 'unstable': rng.choice([1.01, 1.2, 2.0]),
                    'negative': rng.choice([-0.5, -0.9]), 'neg_unstable': rng.choice([-1.0, -1.5]),
-                   'slow': rng.choice([0.99, 0.999])}[kind]
+                   'slow': rng.choice([0.99, 0.999]), 'explosive': rng.choice([-40.0, 30.0, 1000.0, 1e6])}[kind]
             x = 'x%d' % idx
             idx += 1
             c = target * (1 - lam) if lam != 1.0 else rng.choice([0.0, 0.0, -1.0, 0.01])
@@ -50,6 +52,10 @@ def gen_dynamics(rng):
     ics = {}
     for nm in names:
         ics[nm] = rng.choice([0.0, 1.0, -5.0, -205.0, 50.0, 1e-5, -1e-5, 3.0])
+    if 'explosive' in kind_tags:
+        for nm in names:
+            if ics[nm] == 0.0:
+                ics[nm] = 2.0
     with_exo = rng.random() < 0.5
     exo = None
     if with_exo:
@@ -158,6 +164,12 @@ class C15(object):
                     continue
                 s2.TimeSeries[n] = [s2.TimeSeries[n][0]] * len(s2.TimeSeries[n])
             v0 = {n: s2.TimeSeries[n][0] for n in s2.TimeSeries}
+            bad = [n for n, v in v0.items() if isinstance(v, float) and (v != v or abs(v) == float('inf'))]
+            if bad:
+                rec.violate('accepted_state_not_finite', {'vars': bad[:5], 'values': [repr(v0[n]) for n in bad[:5]],
+                                                          'T': case['T'], 'text': case['text']})
+                return {'verdict': 'violated', 'shape': shape, 'counters': rec.counters, 'violations': rec.violations,
+                        'nontrivial': True}
             try:
                 with contextlib.redirect_stdout(io.StringIO()):
                     s2.SolveStep(1)
